@@ -168,6 +168,17 @@ func runRPC(args []string) []string {
 	default:
 		panic("unknown rpc op " + op)
 	}
+	// follow-up traffic on the same connection (not logged, results ignored): requests of several
+	// sizes, after which the arguments the agent retained must still read the same
+	ag.quiet = true
+	if res != "connerr" && !strings.HasPrefix(res, "connerr") {
+		for _, n := range []int{9, 20, 40, 60, 90, 150, 300, 700, 3000, 700, 150, 40, 9} {
+			cc.SetDeadline(time.Now().Add(2 * time.Second))
+			if _, err := cl.Forward(append([]byte{200}, bytes.Repeat([]byte{0x5A}, n)...)); err != nil {
+				break
+			}
+		}
+	}
 	cc.Close()
 	select {
 	case <-done:
@@ -178,7 +189,7 @@ func runRPC(args []string) []string {
 	for _, l := range ag.log {
 		lg = append(lg, hx.HexS(l))
 	}
-	return []string{"[" + strings.Join(lg, "|") + "]", res}
+	return []string{"[" + strings.Join(lg, "|") + "]", res, ag.late()}
 }
 
 type rawKey []byte
